@@ -58,7 +58,7 @@ META = dict(
               "(2440 distinct paths, 2312 judged) x {absolute, relative} x {load, loadall}; interleavings: 11 actors "
               "(loadall and load on s.fna s.frn s.faa s.txt, direct routes of the 3 types), 66 pairs, 896 interleavings; "
               "header collisions: <= 3 records, 3 bodies (3421 texts) through read_fasta, load, loadall as .fna; "
-              "caller-update histories: every code x 4 ways of obtaining a Formula x 2 in-place updates (488), each in its own fork",
+              "caller-update histories: every code x 4 ways of obtaining a Formula x 2 in-place updates (464), each in its own fork",
         thorough="all strings of <= 4 codes (aa, dna, rna) with all their permutations, space/'*' "
                  "insertions and the formula-prefix route; all FASTA texts of <= 5 lines through read_fasta "
                  "and load/loadall with extensions .faa .fna .frn; extension x explicit type (9 x 4) over "
@@ -1247,7 +1247,7 @@ def _shard_prefix_history(args):
 CU_WAYS = (("prefix", "f = periodictable.formula('%(t)s:%(c)s')"),
            ("sequence.labile_formula", "f = fasta.Sequence('x', %(c)r, type=%(t)r).labile_formula"),
            ("sequence.formula", "f = fasta.Sequence('x', %(c)r, type=%(t)r).formula"),
-           ("sequence.D2Omatch-then-labile", "s_ = fasta.Sequence('x', %(c)r, type=%(t)r); s_.D2Omatch(); f = s_.labile_formula"))
+           ("sequence.D2Osld-then-labile", "s_ = fasta.Sequence('x', %(c)r, type=%(t)r); s_.D2Osld(1., 0.5); f = s_.labile_formula"))
 CU_UPDATES = (("iadd-water", "f += periodictable.formula('H[1]2O')"),
               ("iadd-self", "f += f"))
 
